@@ -1181,7 +1181,14 @@ class Executor:
                         keep = framed.get(tgt.ty.split('<')[0], None)
                         if keep is None:
                             continue     # not declared: callee gets the reference read-only
-                        st.store[a.addr] = Agg(tgt.kind, tgt.ty, {i: v for i, v in tgt.fields.items() if i in keep}, lazy=True)
+                        allf = ex.src.structs.get(tgt.ty.split('<')[0].split('::')[-1])
+                        if allf is not None and all(i in keep for i in range(len(allf))):
+                            continue     # every field framed: the object is untouched (also its not yet materialised parts)
+                        # the rewritten parts are NEW unknowns: give the cell a fresh generation name, otherwise the lazily
+                        # re-materialised fields would reuse the symbols (and the constraints) of the values before the call
+                        gen = sum(1 for e_ in st.events if e_[0] == 'call' and e_[1] == name)
+                        st.store[a.addr] = Agg(tgt.kind, tgt.ty, {i: v for i, v in tgt.fields.items() if i in keep}, lazy=True,
+                                               nm='$hvm:%s.%d.%d' % (name, gen, list(call.args).index(a)))
             if effect is not None:
                 effect(ex, st, call)
             if ret is not None:
@@ -1431,17 +1438,20 @@ class Executor:
         arbitrary new contents behind every `&mut` argument, recorded as an event"""
         self.havoc_used.add('[auto] ' + cs.norm)
         st.event('call', cs.norm, ())
-        for op, a in zip(arg_ops, cs.args):
+        gen = sum(1 for e_ in st.events if e_[0] == 'call' and e_[1] == cs.norm)
+        for ai, (op, a) in enumerate(zip(arg_ops, cs.args)):
             if isinstance(a, Ref) and op[0] in ('copy', 'move') and not op[1].proj:
                 ty = frame.fn.locals.get(op[1].local, '')
                 if ty.startswith('&mut '):
                     inner = ty[5:]
                     tgt = self.load(st, a.addr, a.path)
+                    # new contents are NEW unknowns: a fresh generation name keeps their symbols apart from the old ones
+                    nm = '$ahm:%s.%d.%d' % (cs.norm, gen, ai)
                     if isinstance(tgt, Agg) and tgt.lazy and tgt.kind == 'struct':
                         keep = self.auto_frames.get(tgt.ty.split('<')[0], set())
-                        self.store(st, a.addr, a.path, Agg(tgt.kind, tgt.ty, {i: v for i, v in tgt.fields.items() if i in keep}, lazy=True, nm=None))
+                        self.store(st, a.addr, a.path, Agg(tgt.kind, tgt.ty, {i: v for i, v in tgt.fields.items() if i in keep}, lazy=True, nm=nm))
                     else:
-                        self.store(st, a.addr, a.path, Lazy(inner))
+                        self.store(st, a.addr, a.path, self.fresh(st, inner, nm))
         ty = cs.dest_ty
         if ty is None:
             raise Abort('unmodelled', 'auto-havoc of %s: unknown return type' % cs.callee)
